@@ -34,9 +34,12 @@ type Case struct {
 	// Encrypted: the collecting process is configured for DTLS (IsEncrypted); template lifetime
 	// over UDP is the same with or without encryption.
 	Encrypted bool `json:"encrypted,omitempty"`
+	// Mono: the harness clock hands out times with a monotonic reading (as time.Now does), and the
+	// operation wallstep can move the wall clock without moving the monotonic one
+	Mono bool `json:"mono,omitempty"`
 }
 
-type Stats struct{ Interleaved, Expired, DataAfterRefresh bool }
+type Stats struct{ Interleaved, Expired, DataAfterRefresh, WallStep bool }
 
 var rec *ev.Recorder
 
@@ -84,8 +87,11 @@ func runCase(c Case, st *Stats) *ev.Failure {
 		st = &Stats{}
 	}
 	vars := variants()
-	t0 := time.Unix(1700000000, 0)
-	clk := glue.NewHClock(t0)
+	clk := glue.NewHClock(time.Unix(1700000000, 0))
+	if c.Mono {
+		// times with a monotonic reading, as the production clock returns them; the wall clock may step
+		clk = glue.NewHClockMono()
+	}
 	clk.LogYield = true
 	glue.YieldOnLogs(clk)
 	defer glue.YieldOnLogs(nil)
@@ -188,6 +194,13 @@ func runCase(c Case, st *Stats) *ev.Failure {
 			} else if dr.Err == nil {
 				return ev.Failf("op %d: data for template %+v accepted although the template was discarded (or never sent)", i, k)
 			}
+		case "wallstep":
+			// the wall clock is set forward or back by D seconds (an NTP step); the monotonic clock,
+			// which is what lifetimes are measured on, goes on as before
+			if c.Mono {
+				clk.StepWall(time.Duration(o.D) * time.Second)
+				st.WallStep = true
+			}
 		case "adv":
 			clk.Advance(time.Duration(o.D) * time.Second)
 			for _, p := range clk.Pending {
@@ -263,7 +276,7 @@ func runCase(c Case, st *Stats) *ev.Failure {
 func checkState(i int, o Op, col *glue.Col, clk *glue.HClock, model map[glue.TplKey]*mtpl, ttl time.Duration) *ev.Failure {
 	now := clk.Time()
 	stored := col.CP.VerifTemplates()
-	where := fmt.Sprintf("after op %d (%s, t=+%ds)", i, o.Kind, now.Unix()-1700000000)
+	where := fmt.Sprintf("after op %d (%s, t=+%ds)", i, o.Kind, int(clk.Elapsed()/time.Second))
 	seen := map[glue.TplKey]bool{}
 	owner := map[*glue.HTimer]glue.TplKey{}
 	for _, t := range stored {
@@ -274,7 +287,7 @@ func checkState(i int, o Op, col *glue.Col, clk *glue.HClock, model map[glue.Tpl
 			return ev.Failf("%s: template %+v is still stored although its lifetime elapsed and its timer callback ran (or it was invalidated)", where, k)
 		}
 		if exp := m.lastRefresh.Add(ttl); !t.ExpiryTime.Equal(exp) {
-			return ev.Failf("%s: template %+v expires at +%ds, last (re)transmission +%ds + lifetime = +%ds", where, k, t.ExpiryTime.Unix()-1700000000, m.lastRefresh.Unix()-1700000000, exp.Unix()-1700000000)
+			return ev.Failf("%s: template %+v expires at +%ds, last (re)transmission +%ds + lifetime = +%ds", where, k, int(t.ExpiryTime.Sub(now)/time.Second)+int(clk.Elapsed()/time.Second), int(m.lastRefresh.Sub(now)/time.Second)+int(clk.Elapsed()/time.Second), int(exp.Sub(now)/time.Second)+int(clk.Elapsed()/time.Second))
 		}
 		tm, ok := t.Timer.(*glue.HTimer)
 		if !ok || tm == nil {
@@ -291,7 +304,7 @@ func checkState(i int, o Op, col *glue.Col, clk *glue.HClock, model map[glue.Tpl
 		switch tm.State {
 		case glue.TArmed:
 			if exp := m.lastRefresh.Add(ttl); !tm.Target.Equal(exp) {
-				return ev.Failf("%s: template %+v: timer armed for +%ds but the lifetime ends at +%ds", where, k, tm.Target.Unix()-1700000000, exp.Unix()-1700000000)
+				return ev.Failf("%s: template %+v: timer armed for +%ds but the lifetime ends at +%ds", where, k, int(tm.Target.Sub(now)/time.Second)+int(clk.Elapsed()/time.Second), int(exp.Sub(now)/time.Second)+int(clk.Elapsed()/time.Second))
 			}
 		case glue.TStopped:
 			return ev.Failf("%s: stored template %+v has a stopped timer: no expiry is pending, it would live forever", where, k)
@@ -320,6 +333,9 @@ func runRecorded(phase string, c Case) *ev.Failure {
 	st := &Stats{}
 	f := runCase(c, st)
 	var cl []string
+	if st.WallStep {
+		cl = append(cl, "wall_clock_stepped")
+	}
 	if st.Interleaved {
 		cl = append(cl, "refresh_or_invalidation_between_fire_and_callback")
 	}
@@ -387,7 +403,7 @@ func TestC10(t *testing.T) {
 		rec.Extra("alphabet_size", len(alphabet))
 	}
 	ev.Rapid(t, rec, "random", rec.Scale(4000, 3000000), func(t *rapid.T) Case {
-		c := Case{TTL: rapid.SampledFrom([]int{100, 100, 1, 1800, 0}).Draw(t, "ttl"), Encrypted: rapid.IntRange(0, 3).Draw(t, "enc") == 0}
+		c := Case{TTL: rapid.SampledFrom([]int{100, 100, 1, 1800, 0}).Draw(t, "ttl"), Encrypted: rapid.IntRange(0, 3).Draw(t, "enc") == 0, Mono: rapid.Bool().Draw(t, "mono")}
 		eff := c.TTL
 		if eff == 0 {
 			eff = 1800
@@ -396,6 +412,8 @@ func TestC10(t *testing.T) {
 			switch k := rapid.IntRange(0, 15).Draw(t, "op"); {
 			case k == 14:
 				c.Ops = append(c.Ops, Op{Kind: "startlog", Idx: rapid.IntRange(0, 3).Draw(t, "idx")})
+			case k == 15 && c.Mono && rapid.Bool().Draw(t, "wall"):
+				c.Ops = append(c.Ops, Op{Kind: "wallstep", D: rapid.SampledFrom([]int{-7200, -eff, -1, 1, eff, 7200}).Draw(t, "wd")})
 			case k == 15:
 				c.Ops = append(c.Ops, Op{Kind: "step"})
 			case k <= 2:
